@@ -1,7 +1,7 @@
-(* Obligation C10/sharp_never_further_applied.  Statement as printed by Coq from Inferno.C10.UpdateProofs; proof by reference.
+(* Obligation C10/sharp_never_further_applied.  Statement as printed by Coq from Inferno.C10.SharpProofs; proof by reference.
    This file contains nothing else, so the statement cannot be weakened quietly. *)
 From Coq Require Import List ZArith Bool Arith Reals Lra Lia Permutation.
-From Inferno Require Import Base.Num Base.NumR Gen.Bounding C10.Updater C10.KernelProofs C10.AccProofs C10.OrderProofs C10.WorldProofs C10.UpdateProofs C10.InterleaveProofs.
+From Inferno Require Import Base.Num Base.NumR Gen.Bounding C10.Updater C10.KernelAlgebra C10.KernelSharp C10.AccProofs C10.OrderProofs C10.WorldProofs C10.UpdateProofs C10.SharpProofs.
 Import ListNotations.
 Open Scope R_scope.
 Theorem sharp_never_further_applied : forall (a : accR) (x : tensorW) (j : nat) (mx mn : option (T RN)),
@@ -10,5 +10,5 @@ Theorem sharp_never_further_applied : forall (a : accR) (x : tensorW) (j : nat) 
   0 <= rcol (ared RN a) (aneg RN a) j ->
   (forall m : T RN, mx = Some m -> m <= nth j x 0 -> applied a x j <= nth j x 0) /\
   (forall m : T RN, mn = Some m -> nth j x 0 <= m -> nth j x 0 <= applied a x j).
-Proof. exact (@Inferno.C10.UpdateProofs.sharp_never_further_applied). Qed.
+Proof. exact (@Inferno.C10.SharpProofs.sharp_never_further_applied). Qed.
 Print Assumptions sharp_never_further_applied.
